@@ -1,192 +1,9 @@
-// C11: LC_InOut_Graph over LC_CSR_Graph and LC_Linear_Graph. Symmetric mode
-// (one file; the caller promises a symmetric graph, in-edges alias the
-// out-edges) and asymmetric mode (graph file + transpose file; in-edges are a
-// second graph whose node handles are mapped through ids).
-// Not covered because they do not compile: readGraph(g, FileGraph&, FileGraph&); LC_InOut_Graph over
-// LC_InlineEdge_Graph (readGraph passes a 4th constructFrom argument),
-// over LC_Morph_Graph (no getId/getNode), and sortInEdges* over
-// LC_Linear_Graph (no edge_sort_begin).
-#include "c11_csr.h"
-#include "c11_ptr.h"
+// C11: inout family, representative subset of the template matrix (quick + thorough)
+#include "c11_fam_inout.h"
 
 namespace c11 {
 
-template <class G>
-void observeInIO(G& g, const Indexer<G>& ix, Obs& o, galois::MethodFlag flag, uint64_t edgeLimit) {
-  o.adj.assign(ix.nodes.size(), {});
-  for (size_t i = 0; i < ix.nodes.size(); ++i) {
-    auto n = ix.nodes[i];
-    auto b = g.in_edge_begin(n, flag);
-    auto e = g.in_edge_end(n, flag);
-    auto& a = o.adj[i];
-    for (auto it = b; it != e; ++it) {
-      if (a.size() > edgeLimit) {
-        if (o.err.empty())
-          o.err = "node " + std::to_string(i) + ": in-edge iteration does not terminate";
-        break;
-      }
-      int64_t src = ix.ix(g.getInEdgeDst(it));
-      if ((src < 0 || (uint64_t)src >= ix.nodes.size())) {
-        if (o.err.empty())
-          o.err = "node " + std::to_string(i) + ": in-edge source is not a node of the graph";
-        src = (int64_t)ix.nodes.size();
-      }
-      ref::RefEdge r((uint64_t)src);
-      if constexpr (graphHasEdgeData<G>)
-        toRef<typename G::edge_data_type>(g.getInEdgeData(it), r);
-      a.push_back(std::move(r));
-    }
-    // the range form denotes the same sequence
-    uint64_t k = 0;
-    for (auto ii : g.in_edges(n, galois::MethodFlag::UNPROTECTED)) {
-      (void)ii;
-      if (++k > a.size() + 4)
-        break;
-    }
-    if (k != a.size() && o.err.empty())
-      o.err = "node " + std::to_string(i) + ": in_edges() yields " + std::to_string(k) + " edges, in_edge_begin/end " +
-              std::to_string(a.size());
-  }
-}
-
-template <class G, bool IsCsr>
-bool loadAndVerifyOut(Ctx& c, G& g, bool asym, Indexer<G>& ix) {
-  if (asym) {
-    // (the FileGraph,FileGraph overload of readGraph is not a friend of
-    // LC_InOut_Graph and does not compile; only the two-filename form exists)
-    gg::readGraph(g, c.file(), c.fileT());
-    c.builds += 2;
-  } else {
-    if (c.rng.below(2)) {
-      gg::readGraph(g, c.file());
-    } else {
-      gg::FileGraph f1;
-      loadFileGraph(c, f1, c.file(), c.rng.below(2), c.esz);
-      gg::readGraph(g, f1);
-    }
-    ++c.builds;
-  }
-  c.parallelBuilds += c.threads > 1;
-  bool ok;
-  if constexpr (IsCsr) {
-    ok = verifyCsr<G, CsrFam>(c, g, c.X, true, "read");
-    if (ok)
-      ix.build(g, c.X.numNodes + 8);
-  } else {
-    ok = verifyPtr<G>(c, g, c.X, true, "read", &ix);
-  }
-  if (!ok)
-    return false;
-  // ids are the input's node numbers
-  for (uint64_t i : sampleNodes(c, c.X.numNodes, 64))
-    if (g.idFromNode(ix.nodes[i]) != i || g.nodeFromId(i) != ix.nodes[i]) {
-      c.fail("read-node-id", J().kv("position", i).kv("idFromNode", (uint64_t)g.idFromNode(ix.nodes[i])).str());
-      return false;
-    }
-  return true;
-}
-
-template <class G, bool IsCsr, bool Asym>
-void opIORead(Ctx& c) {
-  G g;
-  Indexer<G> ix;
-  if (!loadAndVerifyOut<G, IsCsr>(c, g, Asym, ix))
-    return;
-  Obs in;
-  observeInIO(g, ix, in, c.rng.below(2) ? galois::MethodFlag::UNPROTECTED : galois::MethodFlag::WRITE, c.X.numEdges() + 4);
-  // asymmetric over a CSR layout: the in-graph is the transpose file, in file order
-  if (Asym && IsCsr)
-    checkOrdered(c, in, c.XT(), "in-edges");
-  else
-    checkMultiset(c, in, c.XT(), "in-edges", true);
-  if (Asym && IsCsr && !c.failed)
-    c.inEdgesChecked += c.X.numEdges();
-}
-
-template <class G, bool Asym, bool ByData>
-void opIOSortIn(Ctx& c) {
-  using E = typename G::edge_data_type;
-  G g;
-  Indexer<G> ix;
-  if (!loadAndVerifyOut<G, true>(c, g, Asym, ix))
-    return;
-  if constexpr (ByData) {
-    for (uint64_t n = 0; n < c.X.numNodes; ++n)
-      g.sortInEdgesByEdgeData((uint32_t)n, std::less<E>());
-  } else {
-    if (c.rng.below(2))
-      g.sortAllInEdgesByDst();
-    else
-      for (uint64_t n = 0; n < c.X.numNodes; ++n)
-        g.sortInEdgesByDst((uint32_t)n);
-  }
-  Obs in;
-  observeInIO(g, ix, in, galois::MethodFlag::UNPROTECTED, c.X.numEdges() + 4);
-  if (!checkMultiset(c, in, c.XT(), "in-edges", true))
-    return;
-  if (!(ByData ? checkSortedBy(c, in, c.less, "in-edges") : checkSortedByDst(c, in, "in-edges")))
-    return;
-  // out-edges: untouched when the in-edges are a separate graph, the same (sorted) lists otherwise
-  Obs o;
-  observeOut(g, ix, o, galois::MethodFlag::UNPROTECTED);
-  if (Asym)
-    checkOrdered(c, o, c.X, "read");
-  else
-    checkMultiset(c, o, c.X, "read");
-}
-
-template <class G>
-void regIOCsr(const std::string& cfg, bool sorts) {
-  using E           = typename G::edge_data_type;
-  const char* fam   = "LC_InOut_Graph.CSR";
-  auto& R           = registry();
-  R.push_back(mkEntry<E>(fam, cfg, "symmetric", &opIORead<G, true, false>, F_SYMMETRIC, 2));
-  R.push_back(mkEntry<E>(fam, cfg, "asymmetric", &opIORead<G, true, true>, 0, 2));
-  if (sorts) {
-    R.push_back(mkEntry<E>(fam, cfg, "sortInEdgesByDst-symmetric", &opIOSortIn<G, false, false>, F_SYMMETRIC));
-    R.push_back(mkEntry<E>(fam, cfg, "sortInEdgesByDst-asymmetric", &opIOSortIn<G, true, false>));
-    if constexpr (!std::is_void_v<E>)
-      R.push_back(mkEntry<E>(fam, cfg, "sortInEdgesByEdgeData", &opIOSortIn<G, true, true>));
-  }
-}
-
-template <class G>
-void regIOLin(const std::string& cfg) {
-  using E         = typename G::edge_data_type;
-  const char* fam = "LC_InOut_Graph.Linear";
-  auto& R         = registry();
-  R.push_back(mkEntry<E>(fam, cfg, "symmetric", &opIORead<G, false, false>, F_SYMMETRIC, 2));
-  R.push_back(mkEntry<E>(fam, cfg, "asymmetric", &opIORead<G, false, true>, 0, 2));
-}
-
-template <class E, bool NL = false, bool NU = false, bool OOL = false>
-using IOCsr = gg::LC_InOut_Graph<gg::LC_CSR_Graph<uint32_t, E, NL, NU, OOL>>;
-template <class E, bool NL = false, bool NU = false, bool OOL = false>
-using IOLin = gg::LC_InOut_Graph<gg::LC_Linear_Graph<uint32_t, E, NL, NU, OOL>>;
-
-template <class E>
-void regIOFull() {
-  regIOCsr<IOCsr<E>>("lock", true);
-  regIOCsr<IOCsr<E, true>>("nolock", false);
-  regIOCsr<IOCsr<E, false, true>>("lock+numa", true);
-  regIOCsr<IOCsr<E, false, false, true>>("ool", false);
-  regIOCsr<IOCsr<E, true, true>>("nolock+numa", false);
-  regIOCsr<IOCsr<E, false, true, true>>("ool+numa", false);
-  regIOLin<IOLin<E>>("lock");
-  regIOLin<IOLin<E, true>>("nolock");
-  regIOLin<IOLin<E, false, true>>("lock+numa");
-  regIOLin<IOLin<E, false, false, true>>("ool");
-  regIOLin<IOLin<E, false, true, true>>("ool+numa");
-}
-
 void registerInOut() {
-#if 0 // full matrix: see c11_x_*.cpp
-  regIOFull<void>();
-  regIOFull<uint32_t>();
-  regIOFull<uint64_t>();
-  regIOFull<float>();
-  regIOFull<E12>();
-#else
   regIOCsr<IOCsr<void>>("lock", true);
   regIOCsr<IOCsr<uint32_t>>("lock", true);
   regIOCsr<IOCsr<E12, false, true, true>>("ool+numa", false);
@@ -194,7 +11,6 @@ void registerInOut() {
   regIOLin<IOLin<void>>("lock");
   regIOLin<IOLin<uint32_t>>("lock");
   regIOLin<IOLin<float, false, true, true>>("ool+numa");
-#endif
 }
 
 } // namespace c11
